@@ -13,3 +13,5 @@ def run(ctx):
         "them and escapes are upper-case %XX; (F5) scheme, user, password, host, explicit port, path, query and fragment "
         "all reach the output. Not decided: the round trip and readability over all texts.")
     human_rules(ctx)
+    from ..rules import parser as _parser
+    _parser.t11(ctx, only_strip=True)      # the round trip needs the parser to keep a trailing blank (printable, shown unescaped)
